@@ -292,3 +292,82 @@ func ruleOrderSensitiveLoops(p *Program, r *Report) {
 		r.Check(guarded >= stores, "slots@"+name, "slot stores are preceded by a collision test", fmt.Sprintf("rel.%s places the elements it is given (in set-enumeration order) into slots by index without testing whether the slot is already taken: when two elements share an index the survivor depends on the hash seeds", name), fn.Pos())
 	}
 }
+
+// R07e: a union is not a flattening through a set builder.  The set builder's finishers for positional tuples
+// (asString / asBytes / asArray) keep one element per index — the last one they are handed (R07a).  Feeding a
+// builder with the elements of *several* sets (an enumeration nested in an enumeration of sets) makes index
+// collisions the normal case (every string has an index 0) and the survivor depends on the enumeration order of the
+// outer set.  rel.Union / NUnion keep both tuples.
+func ruleNoFlatteningThroughBuilder(p *Program, r *Report) {
+	r.Begin("R07e", "no union by flattening: nowhere in the module is a rel.SetBuilder fed, unchanged, with the elements of the elements of a set (an Enumerator().Current() nested inside another enumeration whose current element is the set being enumerated); sets are merged with rel.Union / NUnion, which do not collapse positional tuples that share an index", 0)
+	defer r.End()
+	isCurrent := func(v ssa.Value) (*ssa.Call, bool) {
+		c, ok := v.(*ssa.Call)
+		if !ok || !c.Call.IsInvoke() || c.Call.Method.Name() != "Current" {
+			return nil, false
+		}
+		return c, true
+	}
+	// the set an enumerator enumerates: e := X.Enumerator() → X
+	enumeratedSet := func(cur *ssa.Call) ssa.Value {
+		var out ssa.Value
+		DependsOn(cur.Call.Value, func(x ssa.Value) bool {
+			c, ok := x.(*ssa.Call)
+			if ok && out == nil && ((c.Call.IsInvoke() && strings.HasSuffix(c.Call.Method.Name(), "Enumerator")) || (c.Call.StaticCallee() != nil && strings.HasSuffix(c.Call.StaticCallee().Name(), "Enumerator"))) {
+				if c.Call.IsInvoke() {
+					out = c.Call.Value
+				} else if len(c.Call.Args) > 0 {
+					out = c.Call.Args[0]
+				}
+			}
+			return false
+		})
+		return out
+	}
+	n := 0
+	for _, fn := range p.RepoFns {
+		ForEachInstr(fn, func(ins ssa.Instruction) {
+			c, ok := ins.(*ssa.Call)
+			if !ok {
+				return
+			}
+			g := c.Call.StaticCallee()
+			if g == nil || g.Name() != "Add" || g.Signature.Recv() == nil || !strings.HasSuffix(g.Signature.Recv().Type().String(), "rel.SetBuilder") || len(c.Call.Args) < 2 {
+				return
+			}
+			// the added value is, unchanged, the current element of an inner enumeration …
+			inner, ok := isCurrent(c.Call.Args[1])
+			if !ok {
+				if mi, isMI := c.Call.Args[1].(*ssa.MakeInterface); isMI {
+					inner, ok = isCurrent(mi.X)
+				}
+			}
+			if !ok {
+				return
+			}
+			set := enumeratedSet(inner)
+			if set == nil {
+				return
+			}
+			// … whose set is the current element of an outer enumeration
+			nested := DependsOn(set, func(x ssa.Value) bool {
+				oc, ok := isCurrent(x)
+				return ok && oc != inner
+			})
+			if !nested {
+				return
+			}
+			n++
+			r.Fn(FnName(fn))
+			r.Viol(fmt.Sprintf("flatten@%s~%d", FnName(fn), n), fmt.Sprintf("%s merges the members of a set of sets by adding every element to one SetBuilder: positional tuples of different members that share an index (every string has an index 0) collapse to whichever the outer set's hash order enumerates last, so the result differs from run to run; rel.Union / NUnion keep them apart", FnName(fn)), c.Pos())
+		})
+	}
+	if n == 0 {
+		r.OK("flatten", "no set builder is fed from a nested enumeration of member sets", 0)
+	}
+}
+
+func init() {
+	register("C07", Rule{"R07e", ruleNoFlatteningThroughBuilder})
+	register("C01", Rule{"R07e", ruleNoFlatteningThroughBuilder})
+}
